@@ -26,6 +26,7 @@ import Pyxv.Model.OpsAssemble
 import Pyxv.Model.OpsSpell
 import Pyxv.Model.OpsC17
 import Pyxv.Model.OpsC17Headers
+import Pyxv.Model.OpsC17PreRules
 import Pyxv.Model.OpsControls
 import Pyxv.Model.OpsConvert
 import Pyxv.Model.FormFlat
@@ -38,7 +39,7 @@ Driver: one JSON request per line on stdin, one JSON reply per line on stdout.
 open Lean Pyxv
 
 def handlers : List (String → Json → Option (Except String Json)) :=
-  [Xml.opsXml, Form.opsForm, Validator.opsValidator, Chan.opsChannel, Texts.opsTexts, Process.opsProcess, Binds.opsBinds, Choices.opsChoices, Entities.opsEntities, Settings.opsSettings, Refs.opsRefs, Warn.opsWarn, Lexer.opsLexer, Defaults.opsDefaults, Backends.opsBackends, Itext.opsItext, JV.opsJVal, ToJson.opsToJson, ToJson.opsFromJsonChoices, Asm.opsAsm, Spell.opsSpell, Rows17.opsC17, Controls.opsControls, Convert.opsConvert, Binds.opsBindsRefs, ItextOut.opsItextOut, ItextOut.opsItextOutRep, HeaderRules.opsC17Headers, Backends.Typed.opsBackendsTyped, FormFlat.opsFlat, FormFlat.opsFlatW, FormAttrs.opsAttrs, Refs.opsRefsSites]
+  [Xml.opsXml, Form.opsForm, Validator.opsValidator, Chan.opsChannel, Texts.opsTexts, Process.opsProcess, Binds.opsBinds, Choices.opsChoices, Entities.opsEntities, Settings.opsSettings, Refs.opsRefs, Warn.opsWarn, Lexer.opsLexer, Defaults.opsDefaults, Backends.opsBackends, Itext.opsItext, JV.opsJVal, ToJson.opsToJson, ToJson.opsFromJsonChoices, Asm.opsAsm, Spell.opsSpell, Rows17.opsC17, Controls.opsControls, Convert.opsConvert, Binds.opsBindsRefs, ItextOut.opsItextOut, ItextOut.opsItextOutRep, HeaderRules.opsC17Headers, Backends.Typed.opsBackendsTyped, FormFlat.opsFlat, FormFlat.opsFlatW, FormAttrs.opsAttrs, Refs.opsRefsSites, PreRules.opsC17PreRules]
 
 def dispatch (op : String) (j : Json) : Except String Json :=
   let rec go : List (String → Json → Option (Except String Json)) → Except String Json
